@@ -22,10 +22,50 @@ fn inside(s: &[u8], a: &[u8], b: &[u8]) -> bool {
 }
 
 /// One input through every 0.6 entry point. Returns the outcome class.
-fn check6(input: &[u8], hint: Option<bool>) -> Result<String, String> {
-    let mut buf = [0u8; 2048];
+/// Structural identity of a packet value (the library types have no `PartialEq`, and their
+/// `Debug` output abbreviates payloads).
+fn key6<'a>(p: &p6::Packet<'a>) -> (u8, Option<[u8; 4]>, u16, u8, u8, &'a [u8]) {
+    match *p {
+        p6::Packet::Connless(d) => (0, None, 0, 0, 0, d),
+        p6::Packet::Connected(c) => {
+            let t = c.token.map(|t| t.0);
+            match c.type_ {
+                p6::ConnectedPacketType::Chunks(rr, n, d) => (1, t, c.ack, rr as u8, n, d),
+                p6::ConnectedPacketType::Control(ctrl) => match ctrl {
+                    p6::ControlPacket::KeepAlive => (2, t, c.ack, 0, 0, &[]),
+                    p6::ControlPacket::Connect => (3, t, c.ack, 0, 0, &[]),
+                    p6::ControlPacket::ConnectAccept => (4, t, c.ack, 0, 0, &[]),
+                    p6::ControlPacket::Accept => (5, t, c.ack, 0, 0, &[]),
+                    p6::ControlPacket::Close(r) => (6, t, c.ack, 0, 0, r),
+                },
+            }
+        }
+    }
+}
+
+fn key7<'a>(p: &p7::Packet<'a>) -> (u8, [u8; 4], [u8; 4], u16, u8, u8, &'a [u8]) {
+    const Z: [u8; 4] = [0; 4];
+    match *p {
+        p7::Packet::Connless(c) => (0, c.token.0, c.response_token.0, 0, 0, 0, c.payload),
+        p7::Packet::Connected(c) => match c.type_ {
+            p7::ConnectedPacketType::Chunks(rr, n, d) => (1, c.token.0, Z, c.ack, rr as u8, n, d),
+            p7::ConnectedPacketType::Control(ctrl) => match ctrl {
+                p7::ControlPacket::KeepAlive => (2, c.token.0, Z, c.ack, 0, 0, &[]),
+                p7::ControlPacket::Connect(t) => (3, c.token.0, t.0, c.ack, 0, 0, &[]),
+                p7::ControlPacket::Accept => (4, c.token.0, Z, c.ack, 0, 0, &[]),
+                p7::ControlPacket::Close(r) => (5, c.token.0, Z, c.ack, 0, 0, r),
+                p7::ControlPacket::Token(t) => (6, c.token.0, t.0, c.ack, 0, 0, &[]),
+            },
+        },
+    }
+}
+
+fn check6(input: &[u8], hint: Option<bool>, bs: usize) -> Result<String, String> {
+    // `bs`: size of the scratch buffer handed to the reader; the callers in
+    // connection.rs / net.rs use exactly MAX_PACKETSIZE (1400), the minimum legal size.
+    let mut buf = vec![0u8; bs];
     let bufp = buf.as_ptr() as usize;
-    let bufrange: &[u8] = unsafe { std::slice::from_raw_parts(bufp as *const u8, 2048) };
+    let bufrange: &[u8] = unsafe { std::slice::from_raw_parts(bufp as *const u8, bs) };
     let mut w: Vec<p6::Warning> = Vec::new();
     let _ = p6::Packet::is_initial(input);
     let class;
@@ -86,7 +126,7 @@ fn check6(input: &[u8], hint: Option<bool>) -> Result<String, String> {
                 Ok(b) => b.to_vec(),
                 Err(e) => return Err(format!("accepted packet cannot be written: {:?} ({:?})", e, p)),
             };
-            let mut buf2 = [0u8; 2048];
+            let mut buf2 = [0u8; 1400];
             let mut w2: Vec<p6::Warning> = Vec::new();
             let hint2 = match p {
                 p6::Packet::Connless(_) => None,
@@ -94,7 +134,7 @@ fn check6(input: &[u8], hint: Option<bool>) -> Result<String, String> {
             };
             let back = p6::Packet::read(&mut w2, &written, hint2, &mut buf2[..])
                 .map_err(|e| format!("re-reading the written packet fails: {:?} ({:?})", e, p))?;
-            if format!("{:?}", back) != format!("{:?}", p) {
+            if key6(&back) != key6(&p) {
                 return Err(format!("written and re-read packet differs: {:?} vs {:?}", p, back));
             }
             class = format!("v6:ok:{}:warn{}", desc, w.len().min(2));
@@ -106,15 +146,15 @@ fn check6(input: &[u8], hint: Option<bool>) -> Result<String, String> {
         let mut w3: Vec<p6::Warning> = Vec::new();
         let _ = p6::Packet::read_panic_on_decompression(&mut w3, input, hint);
     }
-    let mut buf3 = [0u8; 2048];
+    let mut buf3 = vec![0u8; bs];
     let _ = p6::Packet::decompress_if_needed(input, &mut buf3[..]);
     Ok(class)
 }
 
-fn check7(input: &[u8]) -> Result<String, String> {
-    let mut buf = [0u8; 2048];
+fn check7(input: &[u8], bs: usize) -> Result<String, String> {
+    let mut buf = vec![0u8; bs];
     let bufp = buf.as_ptr() as usize;
-    let bufrange: &[u8] = unsafe { std::slice::from_raw_parts(bufp as *const u8, 2048) };
+    let bufrange: &[u8] = unsafe { std::slice::from_raw_parts(bufp as *const u8, bs) };
     let mut w: Vec<p7::Warning> = Vec::new();
     let class;
     match p7::Packet::read(&mut w, input, &mut buf[..]) {
@@ -186,11 +226,11 @@ fn check7(input: &[u8]) -> Result<String, String> {
                     Ok(b) => b.to_vec(),
                     Err(e) => return Err(format!("accepted packet cannot be written: {:?} ({:?})", e, p)),
                 };
-                let mut buf2 = [0u8; 2048];
+                let mut buf2 = [0u8; 1400];
                 let mut w2: Vec<p7::Warning> = Vec::new();
                 let back = p7::Packet::read(&mut w2, &written, &mut buf2[..])
                     .map_err(|e| format!("re-reading the written packet fails: {:?} ({:?})", e, p))?;
-                if format!("{:?}", back) != format!("{:?}", p) {
+                if key7(&back) != key7(&p) {
                     return Err(format!("written and re-read packet differs: {:?} vs {:?}", p, back));
                 }
             }
@@ -202,37 +242,47 @@ fn check7(input: &[u8]) -> Result<String, String> {
         let mut w3: Vec<p7::Warning> = Vec::new();
         let _ = p7::Packet::read_panic_on_decompression(&mut w3, input);
     }
-    let mut buf3 = [0u8; 2048];
+    let mut buf3 = vec![0u8; bs];
     let _ = p7::Packet::decompress_if_needed(input, &mut buf3[..]);
     Ok(class)
 }
 
 fn one(run: &Arc<Run>, lc: &mut LocalClasses, input: &[u8], family: &str) {
+    const ONE: [usize; 1] = [1400];
+    const ALL: [usize; 3] = [1400, 1401, 2048];
+    let sizes6: &[usize] = if !input.is_empty() && input[0] & wire::F6_COMPRESSION != 0 { &ALL } else { &ONE };
+    let sizes7: &[usize] = if !input.is_empty() && input[0] & wire::F7_COMPRESSION != 0 { &ALL } else { &ONE };
     for hint in [None, Some(true), Some(false)] {
+      for &bs in sizes6 {
         lc.eval();
-        match vp_core::catch(|| check6(input, hint)) {
+        match vp_core::catch(|| check6(input, hint, bs)) {
             Ok(Ok(c)) => lc.class(&format!("{}:hint{:?}", c, hint), || json!({"family": family, "input": vp_core::hex_short(input)})),
             Ok(Err(d)) => {
-                run.violation(&format!("c06:v6:{}", d.split(':').next().unwrap_or("").chars().take(60).collect::<String>()), &d, json!({"version": "0.6", "token_hint": format!("{:?}", hint), "family": family, "input_hex": vp_core::hex(input)}));
+                run.violation(&format!("c06:v6:{}", d.split(':').next().unwrap_or("").chars().take(60).collect::<String>()), &d, json!({"version": "0.6", "scratch_buffer": bs, "token_hint": format!("{:?}", hint), "family": family, "input_hex": vp_core::hex(input)}));
             }
             Err(p) => {
-                run.violation(&format!("c06:v6:{}", vp_core::panic_sig(&p)), &p, json!({"version": "0.6", "token_hint": format!("{:?}", hint), "family": family, "input_hex": vp_core::hex(input)}));
+                run.violation(&format!("c06:v6:{}", vp_core::panic_sig(&p)), &p, json!({"version": "0.6", "scratch_buffer": bs, "token_hint": format!("{:?}", hint), "family": family, "input_hex": vp_core::hex(input)}));
             }
         }
+      }
     }
+    for &bs in sizes7 {
     lc.eval();
-    match vp_core::catch(|| check7(input)) {
+    match vp_core::catch(|| check7(input, bs)) {
         Ok(Ok(c)) => lc.class(&c, || json!({"family": family, "input": vp_core::hex_short(input)})),
         Ok(Err(d)) => {
-            run.violation(&format!("c06:v7:{}", d.split(':').next().unwrap_or("").chars().take(60).collect::<String>()), &d, json!({"version": "0.7", "family": family, "input_hex": vp_core::hex(input)}));
+            run.violation(&format!("c06:v7:{}", d.split(':').next().unwrap_or("").chars().take(60).collect::<String>()), &d, json!({"version": "0.7", "scratch_buffer": bs, "family": family, "input_hex": vp_core::hex(input)}));
         }
         Err(p) => {
-            run.violation(&format!("c06:v7:{}", vp_core::panic_sig(&p)), &p, json!({"version": "0.7", "family": family, "input_hex": vp_core::hex(input)}));
+            run.violation(&format!("c06:v7:{}", vp_core::panic_sig(&p)), &p, json!({"version": "0.7", "scratch_buffer": bs, "family": family, "input_hex": vp_core::hex(input)}));
         }
     }
 }
+    }
 
 fn par<I: IndexedParallelIterator<Item = Vec<u8>>>(run: &Arc<Run>, family: &str, it: I) {
+    let t0 = std::time::Instant::now();
+    let n = it.len();
     let lc = it
         .fold(LocalClasses::new, |mut lc, input| {
             one(run, &mut lc, &input, family);
@@ -240,6 +290,9 @@ fn par<I: IndexedParallelIterator<Item = Vec<u8>>>(run: &Arc<Run>, family: &str,
         })
         .reduce(LocalClasses::new, |a, b| a.merge(b));
     run.merge_classes(lc);
+    if std::env::var("VERIF_TIMING").is_ok() {
+        eprintln!("  {:>9} inputs {:>6.1}s  {}", n, t0.elapsed().as_secs_f64(), family);
+    }
 }
 
 /// Valid packets of every kind in both versions (bytes on the wire).
@@ -355,7 +408,9 @@ fn main() {
                 q[i] = x;
                 mutated.push(q.clone());
                 // pairs: with every boundary value at every later position of the head
-                if thorough || i < 8 {
+                // (quick: pairs only for packets of ordinary size; the long ones differ from
+                // their short siblings only in the payload length)
+                if thorough || (i < 8 && p.len() <= 128) {
                     for j in (i + 1)..p.len().min(if thorough { 16 } else { 10 }) {
                         for &y in &BOUNDARY {
                             let mut r = q.clone();
@@ -440,7 +495,7 @@ fn main() {
     par(&run, "constant-byte strings of length 0..3000", consts.into_par_iter());
     run.assume("a response token of ffffffff in a 0.7 Connect/Token control message is accepted by the reader but is not expressible through the writer API (the writer asserts on it); such values are exempt from the write-back clause");
     run.finish(
-        "byte strings fed to Packet::read (0.6 with token hint None/true/false, 0.7), read_panic_on_decompression (uncompressed only), decompress_if_needed, is_initial and ChunksIter: all strings of length <=2 (<=3 thorough), boundary-structured strings up to 9 bytes, every truncation / extension / single-field and field-pair corruption of valid packets of every kind, compressed payloads expanding to 1380..3000 bytes, prefixes of compressed packets, constant strings of length 0..3000; oracle: returns, no panic, returned slices inside input or scratch buffer (pointer ranges), fields in range, accepted value writes and re-reads equal; outcome class = (version, error variant or accepted kind, warnings, hint)",
+        "byte strings fed to Packet::read (0.6 with token hint None/true/false, 0.7), read_panic_on_decompression (uncompressed only), decompress_if_needed, is_initial and ChunksIter: all strings of length <=2 (<=3 thorough), boundary-structured strings up to 9 bytes, every truncation / extension / single-field and field-pair corruption of valid packets of every kind, compressed payloads expanding to 1380..3000 bytes, prefixes of compressed packets, constant strings of length 0..3000; scratch buffers of 1400 (the size the callers use, the minimum legal one), 1401 and 2048 bytes for compressed inputs, re-reads always with 1400; oracle: returns, no panic, returned slices inside input or scratch buffer (pointer ranges), fields in range, accepted value writes and re-reads equal; outcome class = (version, error variant or accepted kind, warnings, hint)",
         true,
     );
 }
